@@ -69,7 +69,7 @@ private def ex0 : Exc := ⟨0, [0], false, none⟩
 private def w0 : ExcView.World :=
   { sec := ⟨true, false⟩, notFound := ⟨45, [45, 0], true, some 404⟩, mismatch := ⟨48, [48, 45, 0], true, some 404⟩,
     forbidden := ⟨44, [44, 0], false, some 403⟩, excNotFound := ⟨45, [45, 0], true, some 404⟩,
-    excMismatch := ⟨48, [48, 45, 0], true, some 404⟩, excForbidden := ⟨44, [44, 0], false, some 403⟩ }
+    excMismatch := ⟨48, [48, 45, 0], true, some 404⟩, excForbidden := ⟨44, [44, 0], false, some 403⟩, viewResponse := 0 }
 private def base0 : Request :=
   { method := "GET", getParams := [], postParams := [], environ := [], pathInfo := "/", matchdict := none,
     authenticated := false, customTrue := [], reTable := [], accQ := [], lineage := [], physPath := none, permitted := true,
@@ -98,8 +98,8 @@ theorem nothing_registered_is_http_notfound_partial (app : App) (rq : Req) (key 
 private def ex1 : Exc := ⟨100, [100, 40, 0], false, none⟩
 private def appLeak : App :=
   { appEmpty with
-    views := [⟨⟨0, 0, "", [], none, .unset, false, false, 1, .raise ex1⟩, 9⟩,
-              ⟨⟨0, 100, "", [], none, .named, true, true, 2, .respond⟩, 1⟩] }
+    views := [⟨⟨0, 0, "", [], none, .unset, false, false, 1, .raise ex1, false⟩, 9⟩,
+              ⟨⟨0, 100, "", [], none, .named, true, true, 2, .respond, false⟩, 1⟩] }
 
 /-- **F-X01a** (= F-C14a = F-C05a through the composed model): the most specific exception view for the raised exception is
 protected and the policy refuses — neither its response nor the original exception leaves the router but a new
@@ -398,11 +398,11 @@ private def probeApp : App :=
               ⟨.mk true [("b".toList, .mk true [])], [([], [10, 0]), (["b".toList], [11, 0])], none⟩,
               ⟨.mk true [], [], some valueError⟩],
     defaultRoot := 0,
-    views := [⟨⟨0, 11, "v", [], none, .unset, false, false, 1, .respond⟩, 9⟩,
-              ⟨⟨1, 0, "", [], none, .unset, false, false, 2, .respond⟩, 9⟩,
-              ⟨⟨3, 52, "", [], none, .noPermissionRequired, true, true, 3, .respond⟩, 9⟩,
-              ⟨⟨0, 45, "", [], none, .noPermissionRequired, true, true, 4, .respond⟩, 9⟩,
-              ⟨⟨0, 49, "", [], none, .noPermissionRequired, true, true, 5, .respond⟩, 9⟩],
+    views := [⟨⟨0, 11, "v", [], none, .unset, false, false, 1, .respond, false⟩, 9⟩,
+              ⟨⟨1, 0, "", [], none, .unset, false, false, 2, .respond, false⟩, 9⟩,
+              ⟨⟨3, 52, "", [], none, .noPermissionRequired, true, true, 3, .respond, false⟩, 9⟩,
+              ⟨⟨0, 45, "", [], none, .noPermissionRequired, true, true, 4, .respond, false⟩, 9⟩,
+              ⟨⟨0, 49, "", [], none, .noPermissionRequired, true, true, 5, .respond, false⟩, 9⟩],
     world := { w0 with sec := ⟨false, false⟩ },
     urlDecode := ⟨49, [49, 50, 51, 52, 40, 0], false, none⟩, unicodeDecode := ⟨50, [50, 51, 52, 40, 0], false, none⟩,
     keyError := ⟨46, [46, 47, 40, 0], false, none⟩, allowed := [] }
